@@ -21,8 +21,8 @@ def run_part(ctx):
     else:
         ctx.corr(hx, ["enc", "--n", "170"], cases_name="c01json_enc.v")
     ctx.assumptions += [
-        "c01json: guard has_type: integers within their width, *big.Int in [0, 2^256), time.Time within [0, MaxInt64] unix ns (TimeToUint64 clamps outside, by design), map keys pairwise distinct, non-optional pointers/interfaces non-nil",
-        "c01json: guard wf_schema: field keys pairwise distinct and != \"type\" when the struct has an object code; map keys string/int64/uint64/time/[n]byte; 'optional' only on pointer/interface/*big.Int fields; interface alternatives are value structs with distinct codes",
+        "c01json: guard has_type: an omitempty field may hold its empty value (zero time.Time, nil pointer) whatever it is; integers within their width, *big.Int in [0, 2^256), time.Time within [0, MaxInt64] unix ns (TimeToUint64 clamps outside, by design), map keys pairwise distinct, non-optional pointers/interfaces non-nil",
+        "c01json: guard wf_schema: field keys (incl. those of inlined/embedded structs, which live in the enclosing object) pairwise distinct and != \"type\" when the struct has an object code; 'omitempty' not on maps/arrays/by-value structs; inlined fields are structs; map keys string/int64/uint64/time/[n]byte; 'optional' only on pointer/interface/*big.Int fields; interface alternatives are value structs with distinct codes",
         "c01json: nil and empty slices/maps are identified (JSONDecode always yields empty non-nil ones); decoded Go maps are compared up to entry order; a Go map is presented to the model as its entry list ordered by encoded key (the order JSONEncode must emit; determinism itself is judged by the Go oracle: 4 encodings of each value give identical bytes)",
-        "c01json: not modelled: float32/64 fields, omitempty, embedded and inlined structs, byte arrays with object codes, custom (De)SerializableJSON types, validation rules (minLen/maxLen/array rules/validators); WithValidation() without rules is exercised on 1/3 of the cases",
+        "c01json: modelled since round 2b: omitempty (not on maps, arrays, by-value structs), inlined struct fields and embedded structs, [n]byte with registered object code (by value / pointer) and *[n]byte; not modelled: float32/64 fields, inlined/embedded interfaces, interface alternatives other than value structs, custom (De)SerializableJSON types, validation rules (minLen/maxLen/array rules/validators); WithValidation() without rules is exercised on 1/3 of the cases",
     ]
